@@ -25,26 +25,26 @@ NA = {
 
 CHECKS = {
  "C12": {
-  "text": "Seeded search over call histories: one history process executes 2-12 load/loads calls (valid scripts, templates, scripts failing at every stage, echo probes mentioning earlier names in every syntactic slot) with injected file-read faults (errno, torn, flipped, short reads), interruptions (MemoryError/KeyboardInterrupt at a call line of the package's own code outside except/finally blocks), exceptions the caller keeps in garbage cycles with seeded collector timing, environment changes and mutations of earlier results; every load outcome is compared with the same call in a pristine fork of a never-used zygote, and earlier results must stay unchanged. Evidence, not proof: a sampled history space with reach counters.",
+  "text": "Seeded search over call histories: one history process executes 2-12 load/loads calls (valid scripts, templates, scripts failing at every stage, echo probes mentioning earlier names in every syntactic slot) with injected file-read faults (errno, torn, flipped, short reads), interruptions (MemoryError/KeyboardInterrupt at a call line of the package's own code outside except/finally blocks), exceptions the caller keeps in garbage cycles with seeded collector timing, environment changes, scripts whose loading depends on interpreter-wide state (expression chains around the recursion boundary, functions applied to values equal across types, arithmetic leaving the floating-point range) and mutations of earlier results (including in-place edits of register transforms); every load outcome is compared with the same call in a pristine fork of a never-used zygote, and earlier results must stay unchanged. Evidence, not proof: a sampled history space with reach counters.",
   "note": "Reading taken: an interrupted load (Ctrl-C, MemoryError) is an 'earlier load attempt' in the sense of the statement, so leaving state behind on that path counts; code that cleans up in try/finally is never blamed for an exception inside the finally itself. Trusted: os.fork gives a pristine image (plus a private, emptied HOME/TMPDIR per child); the warm-up of the zygote (generated parser only) is semantically invisible (1 run in 32 uses completely cold pristine forks); deepcopy/render used for observation are read-only. Thread interleavings are deliberately out of scope (the library makes no thread-safety claim).",
   "technique": "deterministic simulation: seeded history + fault schedule, differential oracle against pristine fork",
   "design": "DESIGN.md §4.2",
  },
  "C13": {
-  "text": "Seeded search over operation histories on aliased objects (templates, instances, graphs, match results): dumps, template calls (valid and failing), to_DiGraph, match_template, attribute reads, deep copies, interleaved with mutations of objects the history produced; a snapshot reference model (content digest + serialisation per object) is checked after every step. Weakest fit to the technique (no clock, I/O or schedule), stated in DESIGN.md.",
+  "text": "Seeded search over operation histories on aliased objects (templates, instances, graphs, match results): dumps, dump() to a simulated writer that may fail (ENOSPC/EIO/EPIPE at its n-th write), template calls (valid and failing), to_DiGraph, match_template, attribute reads, deep copies, interleaved with mutations of objects the history produced; a snapshot reference model (content digest + serialisation per object, the serialisation taken before and after the observer's own attribute reads) is checked after every step. Weakest fit to the technique (no clock, I/O or schedule), stated in DESIGN.md.",
   "note": "Reading taken: 'observably unchanged' includes what the program returns when used again (equal programs answer equal read-only operations equally), and an operation that raises - because of its input or because of an injected MemoryError/KeyboardInterrupt at a call line outside except/finally - must leave everything unchanged. Trusted: copy.deepcopy and the renderer are read-only; mutations through containers documented as the program's own count as mutations of that program; edits through a graph node's args list (shared with the program by construction) are not generated.",
   "technique": "deterministic simulation: seeded operation/fault history against a snapshot reference model",
   "design": "DESIGN.md §4.3",
  },
  "C07": {
-  "text": "Seeded search over environments: real directory trees on tmpfs with decoy files, process working directories, path styles, repeated loads, a symbolic link, a twin project with the same relative layout, nested includes up to depth 3, 1-5 calls per subroutine, non-contiguous unsorted mode sets, template parameters, plus file-read faults (errno, tears and short reads at statement boundaries, byte flips in comments); oracle = an independent executable inlining model interpreting the same data model.",
+  "text": "Seeded search over environments: real directory trees on tmpfs with decoy files, process working directories, path styles, repeated loads, a symbolic link, a twin project with the same relative layout, nested includes up to depth 3 (chains up to depth 6 in one run of seven), names containing glob characters with pattern-matching siblings, templates forwarding parameters under permuted names, 1-5 calls per subroutine, non-contiguous unsorted mode sets, template parameters, plus file-read faults (errno, tears and short reads at statement boundaries, byte flips in comments); oracle = an independent executable inlining model interpreting the same data model.",
   "note": "Trusted: the reference model (bbsim/model07.py, no blackbird import) implements exactly the statement of C07; constructs the statement leaves open (registers inside includes, same program name in two included files, '..' after a symbolic link, a call-site mode list naming a mode twice, circular includes, relative includes in loads()) are not generated; mismatched calls must raise (C11); keyword order inside an operation is not compared.",
   "technique": "deterministic simulation: seeded file-system/cwd/fault environment against an executable reference model",
   "design": "DESIGN.md §4.1",
  },
  "C19": {
-  "text": "K fresh interpreters, each with its own PYTHONHASHSEED derived from VERIF_SEED, plus a second run of the first seed on the same directories and a run of it with assertions stripped (PYTHONOPTIMIZE), receive the same sequence of generated worlds (scripts and include trees); program content digests and serialisations must agree in all of them and the register/function pairing invariant must hold in each. The check reports itself ineffective if no iteration order actually differed.",
-  "note": "Trusted: PYTHONHASHSEED is the only source of run-to-run nondeterminism in CPython relevant here; a few dozen of 2^32 seeds are sampled.",
+  "text": "K fresh interpreters, each with its own PYTHONHASHSEED derived from VERIF_SEED, plus a second run of the first seed on the same directories and a run of it with assertions stripped (PYTHONOPTIMIZE), receive the same sequence of generated worlds (scripts, include trees - also with register transforms inside the included programs - and array programs whose declared names clash with the serialiser's hoisted names); program content digests and serialisations must agree in all of them and the register/function pairing invariant must hold in each. The check reports itself ineffective if no iteration order actually differed.",
+  "note": "Trusted: PYTHONHASHSEED is the only source of run-to-run nondeterminism in CPython relevant here; a few dozen of 2^32 seeds are sampled. All interpreters go through the same history of worlds, so dependence on what a process did before is not C19's to see; it is decided under C12.",
   "technique": "deterministic simulation: interpreter hash seed as the controlled nondeterminism source, cross-run digest equality",
   "design": "DESIGN.md §4.4",
  },
